@@ -12,7 +12,7 @@
      scan = true   the duplicate test is a function of the sorted nodes (root included).
    Which of the two describes the tree is read from the sources on every run
    (Gen/GraphTables.canon_dupe_by_scan). *)
-From DepsDev Require Import Lib.Base Lib.Order Resolve.Attr Gen.GraphTables.
+From DepsDev Require Import Lib.Base Lib.Order Lib.Sort Resolve.Attr Gen.GraphTables.
 
 (* ------------------------------------------------------------------ data *)
 Record vkey := { vk_sys : N; vk_name : bytes; vk_type : N; vk_ver : bytes }.
@@ -76,29 +76,6 @@ Definition edge_compare : edge -> edge -> Z :=
            (lex (fun a b => bytes_compare (e_req a) (e_req b))
                 (fun a b => dtype_compare (e_type a) (e_type b)))).
 
-(* ------------------------------------------------------------------ sorting (specification level) *)
-(* Stable insertion sort.  For a comparator whose equivalence is equality on the
-   elements of the list the result is the only sorted permutation (Lib/SortSpec). *)
-Section Sort.
-  Context {A : Type} (cmp : A -> A -> Z).
-  Fixpoint insert (x : A) (l : list A) : list A :=
-    match l with
-    | [] => [x]
-    | y :: t => if (cmp x y <=? 0)%Z then x :: l else y :: insert x t
-    end.
-  Fixpoint isort (l : list A) : list A :=
-    match l with
-    | [] => []
-    | x :: t => insert x (isort t)
-    end.
-  (* two neighbours of a sorted list compare equal *)
-  Fixpoint adj_dupe (l : list A) : bool :=
-    match l with
-    | x :: ((y :: _) as t) => (cmp x y =? 0)%Z || adj_dupe t
-    | _ => false
-    end.
-End Sort.
-
 (* ------------------------------------------------------------------ small list tools *)
 Fixpoint upd_nth {A} (l : list A) (i : nat) (x : A) : list A :=
   match l, i with
@@ -144,7 +121,7 @@ Definition add_error (g : graph) (n : Z) (req : vkey) (text : bytes) : res graph
 
 (* ------------------------------------------------------------------ orderedNodes under sort.Sort, literally *)
 (* Nodes and IDs are rearranged in parallel: one list of pairs. *)
-Definition item : Type := (node * nat)%type.
+Notation item := (node * nat)%type.
 Definition item_compare (a b : item) : Z := node_compare (fst a) (fst b).
 
 Record osort := { os_items : list item; os_root : nat; os_dupe : bool }.
